@@ -169,3 +169,73 @@ def file_kind_findings(ctx, kr, rule_id, select, text):
             )
         elif len(ctx.samples) < 6:
             ctx.sample({"rule": rule_id, "function": q, "declared": r.ret, "return_kinds": sorted(union), "dates": len(kr.rules_seen[q])})
+
+
+def input_type_gate(ctx, repo, rid="T0"):
+    """T0: the `has expected type` predicate pairs every internal type with its own dtype class only - decided
+    on the full (declared type x column dtype class) table of the predicate expression."""
+    import itertools
+
+    from staticlib.ordersem import NotExpressible, function_as_expression
+
+    ctx.rule(rid, "an input column is taken as is only when its dtype class equals the declared type (float/int/bool/date); every other combination goes through the conversion (which converts losslessly or raises)")
+    ty = repo.module("gettsim_typing.py")
+    fn = find_function(ty, "check_series_has_expected_type", "anchor: the gate in front of the input conversion")
+    params = [a.arg for a in fn.args.args]
+    if len(params) != 2:
+        raise AnalysisError("check_series_has_expected_type no longer takes (series, internal_type)")
+    ser, it = params
+    try:
+        expr = function_as_expression(fn)
+    except NotExpressible as e:
+        raise AnalysisError(f"check_series_has_expected_type is not an expression over dtype tests ({e}); {rid} needs a re-read") from e
+    TYPES = {"float": "float", "int": "int", "bool": "bool", "numpy.datetime64": "date", "np.datetime64": "date", "datetime64": "date"}
+    DT = {"is_float_dtype": "float", "is_integer_dtype": "int", "is_bool_dtype": "bool", "is_datetime64_any_dtype": "date", "is_datetime64_dtype": "date", "is_numeric_dtype": "numeric"}
+
+    def ev(e, t, d):
+        if isinstance(e, ast.Constant):
+            return e.value
+        if isinstance(e, ast.IfExp):
+            return ev(e.body, t, d) if ev(e.test, t, d) else ev(e.orelse, t, d)
+        if isinstance(e, ast.BoolOp):
+            vals = [ev(v, t, d) for v in e.values]
+            return all(vals) if isinstance(e.op, ast.And) else any(vals)
+        if isinstance(e, ast.BinOp) and isinstance(e.op, (ast.BitAnd, ast.BitOr)):
+            a, b = ev(e.left, t, d), ev(e.right, t, d)
+            return (a and b) if isinstance(e.op, ast.BitAnd) else (a or b)
+        if isinstance(e, ast.UnaryOp) and isinstance(e.op, (ast.Not, ast.Invert)):
+            return not ev(e.operand, t, d)
+        if isinstance(e, ast.Compare) and len(e.ops) == 1 and isinstance(e.ops[0], (ast.Eq, ast.Is, ast.NotEq, ast.IsNot, ast.In)):
+            l, r = e.left, e.comparators[0]
+            if isinstance(r, ast.Name) and r.id == it:
+                l, r = r, l
+            if isinstance(l, ast.Name) and l.id == it:
+                if isinstance(e.ops[0], ast.In) and isinstance(r, (ast.Tuple, ast.List, ast.Set)):
+                    return t in [TYPES.get(ast.unparse(x)) for x in r.elts]
+                tt = TYPES.get(ast.unparse(r))
+                if tt is None:
+                    raise ValueError(f"unknown type literal {ast.unparse(r)}")
+                return (t == tt) == isinstance(e.ops[0], (ast.Eq, ast.Is))
+        if isinstance(e, ast.Call):
+            fname = ast.unparse(e.func).split(".")[-1]
+            if fname in DT and e.args and isinstance(e.args[0], ast.Name) and e.args[0].id == ser:
+                c = DT[fname]
+                return d in ("float", "int", "bool") if c == "numeric" else d == c
+            if fname == "bool" and len(e.args) == 1:
+                return bool(ev(e.args[0], t, d))
+        raise ValueError(f"construct `{ast.unparse(e)[:60]}` outside the dtype-test language")
+
+    bad = []
+    n = 0
+    try:
+        for t, d in itertools.product(["float", "int", "bool", "date"], ["float", "int", "bool", "date", "object"]):
+            n += 1
+            got = bool(ev(expr, t, d))
+            if got != (t == d):
+                bad.append((t, d, got))
+    except ValueError as e:
+        raise AnalysisError(f"check_series_has_expected_type: {e}; {rid} needs a re-read") from e
+    ctx.ob(rid, ok=not bad, distinct="gate", n=n)
+    for t, d, got in bad:
+        ctx.violation(rid, f"gate|declared {t}|dtype {d}", ty.loc(fn) + " check_series_has_expected_type",
+                      f"a column declared {t} with dtype class {d} is {'accepted without conversion' if got else 'sent to conversion although it already has the declared type'}: " + ("the rules then receive values of another kind than declared (mixed int/float results, truncation by the first-row dtype)" if got else "needless conversion"))
